@@ -69,6 +69,8 @@ def check(run, prog, tier):
                 return b"h" * 16
             if tm[0] == "call" and tm[1] in (("ext", "bytearray"), ("ext", "bytes")) and not tm[2]:
                 return b""
+            if tm[0] == "call" and tm[1][0] == "attr" and tm[1][2] == "join" and len(tm[2]) == 1 and not tm[3]:
+                return bytes(eval_term(tm[1][1], leaf)).join(bytes(x) for x in eval_term(tm[2][0], leaf))
             raise AnalysisError("other")
         for c, v, _, _ in p.conds:
             try:
